@@ -35,19 +35,41 @@ Start(s) ==
 
 Stop == running /\ running' = FALSE /\ cur' = None /\ last' = <<"stop">> /\ UNCHANGED <<disk, txt, gen, firstId>>
 
-Pair(c) == /\ running /\ disk' = [disk EXCEPT !.pairings = @ \cup {c}]
-           /\ txt' = [txt EXCEPT !.sf = IF Guard("sf_updated_on_pair") THEN 0 ELSE @]
-           /\ last' = <<"pair", c>> /\ UNCHANGED <<running, cur, gen, firstId>>
-Unpair(c) == /\ running /\ c \in disk.pairings /\ disk' = [disk EXCEPT !.pairings = @ \ {c}]
-             /\ txt' = [txt EXCEPT !.sf = IF disk'.pairings = {} /\ Guard("sf_updated_on_unpair") THEN 1 ELSE @]
+\* Pairing identifiers: ordinary controller names, and "self" = the accessory's own device id (it is advertised in the TXT
+\* record, so any peer can choose it).  Intended design: the accessory's key pair is not a pairing; a pairing operation that
+\* names the accessory is refused and changes nothing (guard own_key_not_a_pairing).  Without the guard the key pair and the
+\* pairings share one name space (db entities): pairing as "self" replaces the accessory's key pair by a foreign public key,
+\* removing "self" deletes it, and sf is computed from the number of entities.
+Self == "self"
+Names == Ctrl \cup {Self}
+Entities(d) == Cardinality(d.pairings \ {Self}) + (IF d.keypair # 0 THEN 1 ELSE 0)
+Pair(c) == /\ running
+           /\ IF c = Self /\ Guard("own_key_not_a_pairing")
+              THEN UNCHANGED <<disk, txt, gen>>
+              ELSE IF c = Self
+              THEN /\ gen < MaxGen /\ gen' = gen + 1
+                   /\ disk' = [disk EXCEPT !.keypair = gen + 1, !.pairings = @ \cup {Self}]
+                   /\ txt' = [txt EXCEPT !.sf = IF Entities(disk') > 1 THEN 0 ELSE 1]
+              ELSE /\ disk' = [disk EXCEPT !.pairings = @ \cup {c}] /\ UNCHANGED gen
+                   /\ txt' = [txt EXCEPT !.sf = IF Guard("sf_updated_on_pair") THEN 0 ELSE @]
+           /\ last' = <<"pair", c>> /\ UNCHANGED <<running, cur, firstId>>
+\* removal is requested by a verified controller, so some pairing exists; the name removed is arbitrary
+Unpair(c) == /\ running /\ disk.pairings # {} /\ (c \in disk.pairings \/ c = Self)
+             /\ IF c = Self /\ Guard("own_key_not_a_pairing")
+                THEN UNCHANGED <<disk, txt>>
+                ELSE IF c = Self
+                THEN /\ disk' = [disk EXCEPT !.keypair = 0, !.pairings = @ \ {Self}]
+                     /\ txt' = [txt EXCEPT !.sf = IF Entities(disk') > 1 THEN 0 ELSE 1]
+                ELSE /\ disk' = [disk EXCEPT !.pairings = @ \ {c}]
+                     /\ txt' = [txt EXCEPT !.sf = IF disk'.pairings = {} /\ Guard("sf_updated_on_unpair") THEN 1 ELSE @]
              /\ last' = <<"unpair", c>> /\ UNCHANGED <<running, cur, gen, firstId>>
 ChangeValues == running /\ last' = <<"values">> /\ UNCHANGED <<disk, running, cur, txt, gen, firstId>>
 
-Next == (\E s \in Structure : Start(s)) \/ Stop \/ (\E c \in Ctrl : Pair(c) \/ Unpair(c)) \/ ChangeValues
+Next == (\E s \in Structure : Start(s)) \/ Stop \/ (\E c \in Names : Pair(c) \/ Unpair(c)) \/ ChangeValues
 Spec == Init /\ [][Next]_vars
 
 \* ---- C20
-IdentityStable == running => <<txt.id, txt.ltpk>> = firstId
+IdentityStable == running => (<<txt.id, txt.ltpk>> = firstId /\ disk.keypair = firstId[2])
 SfRule == running => (txt.sf = 1 <=> disk.pairings = {})
 CnumRule == [][ last'[1] = "start" =>
                   IF last'[3] # None /\ last'[3] # last'[2] THEN txt'.cnum > last'[4]
